@@ -306,6 +306,14 @@ def run(ctx):
             cfg = kfacsim.Config(rng, world=world, k=k, method=method, sym=True, prediv=(method == 'eigen' and rng.random() < 0.5))
             cfg.ops = (['f1'] * cfg.accum + ['s']) * rng.randrange(1, 3)
             cfgs.append(cfg)
+    # directed corner: resume on several ranks with inverse broadcast (COMM-/HYBRID-OPT): after the load every rank has
+    # computed second-order data locally; the following refreshes must replace it on the ranks that only receive it
+    for world, k, method in ((2, 2, 'eigen'), (4, 2, 'inverse'), (4, 4, 'eigen')):
+        cfg = kfacsim.Config(rng, world=world, k=k, method=method, prediv=(method == 'eigen' and rng.random() < 0.5), sym=False)
+        cfg.hyper['factor_update_steps'], cfg.hyper['inv_update_steps'] = 1, 1
+        it = ['f1'] * cfg.accum + ['s']
+        cfg.ops = it + ['l11'] + it * 3
+        cfgs.append(cfg)
     # directed corner: layers without bias (their gradient is installed / read as a view of the weight gradient) on
     # gradient-receiver ranks (MEM-OPT / HYBRID-OPT) with active clipping: the gradient written back is nu*V on every rank
     from fractions import Fraction
